@@ -26,7 +26,7 @@ Fixpoint bnd (B : list name) (e : expr) {struct e} : list name :=
   | EAssign _ e1 => bnd B e1
   | EIf c t f => bnd (bnd (bnd B c) t) f
   | EWhile _ _ => B
-  | EFor _ _ _ _ _ => B
+  | EFor _ e1 _ _ _ => bnd B e1
   | ESwitch e1 _ => bnd B e1
   | ETry b _ _ => bnd B b
   | EThrow e1 => bnd B e1
